@@ -391,6 +391,8 @@ fn builder_case(s: &mut Session, rng: &mut Rng, runs: &[Run], all_bmp: bool, num
             s.case("build-fail", format!("{cmd} {mt}"), tag.clone());
         }
         s.case("build-fail", format!("lt {ct} | {mt}"), tag.clone());
+        s.case("build-fail", format!("lc {ct} | {mt}"), tag.clone());
+        s.case("build-fail", format!("ic {num_glyphs} | {mt}"), tag.clone());
         return;
     };
     s.count("build:ok");
@@ -445,6 +447,11 @@ fn builder_case(s: &mut Session, rng: &mut Rng, runs: &[Run], all_bmp: bool, num
     let charmap: Charmap = font.charmap();
     let lt: Vec<Option<GlyphId>> = p.cps.iter().map(|c| cmap.map_codepoint(*c)).collect();
     s.case("lt", format!("lt {ct} | {mt}"), show_opts(&lt));
+    // skrifa Charmap on the built table: correspondence for selection + filtering + limits
+    let lc: Vec<Option<GlyphId>> = p.cps.iter().map(|c| charmap.map(*c)).collect();
+    s.case("lc", format!("lc {ct} | {mt}"), show_opts(&lc));
+    let ic: Vec<(u32, GlyphId)> = charmap.mappings().collect();
+    s.case("ic", format!("ic {num_glyphs} | {mt}"), show_pairs(&ic));
     if let Some(t) = &f4 {
         let l4: Vec<Option<GlyphId>> = p.cps.iter().map(|c| t.map_codepoint(*c)).collect();
         s.case("l4", format!("l4 {ct} | {mt}"), show_opts(&l4));
